@@ -3,6 +3,7 @@
 Decides: dedupe-before-integrate (a), idempotent deletion (b), integration reads replicated
 state only (c), tie-break operands of the conflict scan (d). Does not decide convergence.
 """
+import re
 from ylib import facts as F
 from .common import *  # noqa
 from . import shared
@@ -214,10 +215,173 @@ def rule_e(R, ctx):
                         "iteration over an unordered container inside the integration cone (order independence of the sink is a value question)", cs.loc())
 
 
+def rule_f(R, ctx, rid="C01.f"):
+    """decision table of the conflict scan."""
+    from ylib.formula import Formulas, truth_check, fshow, atoms_of, f_or
+    Y = ctx.yrs
+    R.rule(rid, "R-GUARD decision table of the YATA conflict scan (Item::resolve_conflict): per scanned item `o`, with "
+                "R = (self.right == o), SO = same origin, LT = o.client < self.client, SRO = same right origin, OS = o's origin "
+                "resolves, BO / CO = o's origin is in items_before_origin / conflicting_items: "
+                "`left := o` and `conflicting.clear()` happen exactly under !R && ((SO && LT) || (!SO && OS && BO && !CO)); the scan "
+                "continues exactly under !R && ((SO && (LT || !SRO)) || (!SO && OS && BO)); o is added to both sets exactly under !R. "
+                "Compared by truth table with the exact path formulas of one loop round (every replica must take the same decisions)")
+    fn = Y.fn("yrs::block::Item::resolve_conflict")
+    cfg = fn.cfg()
+    fm = Formulas(fn, simp_deep)
+    fm.expand = False
+    # the two sets: identified by the HashSet::new call that creates them; the one that is cleared is `conflicting`
+    new_calls = {cs.bb: cs for cs in fn.calls() if F.strip_generics(cs.name).endswith("HashSet::new")}
+    v = FnView(fn)
+
+    def set_of(term):
+        for t in walk(term):
+            if t[0] == "call" and F.strip_generics(t[1]).endswith("HashSet::new") and len(t) > 3:
+                return t[3]
+        return None
+
+    clears = [cs for cs in fn.calls() if F.strip_generics(cs.name).endswith("HashSet::clear")]
+    R.floor(rid, "clear() calls in resolve_conflict", len(clears), 2)
+    conflicting = {set_of(v.arg(cs, 0, 12)) for cs in clears}
+    if len(conflicting) != 1 or None in conflicting or len(new_calls) != 2:
+        R.ob(rid, fn, "sets", False, "expected two HashSets, one of which (conflicting items) is cleared; found sets %s, cleared %s" %
+             (sorted(new_calls), sorted(map(str, conflicting))))
+        return
+    CONF = conflicting.pop()
+    BEFORE = [b for b in new_calls if b != CONF][0]
+    fm.keyfn = lambda t: "".join("@set%d" % x[3] for x in walk(t) if x[0] == "call" and len(x) > 3 and F.strip_generics(x[1]).endswith("HashSet::new"))
+    # the scan loop: the loop that contains the clear() calls
+    back = fm.back_edges()
+    loops = []
+    for (t, h) in back:
+        body = {h, t}
+        st = [t]
+        while st:
+            n = st.pop()
+            if n == h:
+                continue
+            for p in cfg.pred[n]:
+                if p not in body:
+                    body.add(p)
+                    st.append(p)
+        if all(cs.bb in body for cs in clears):
+            loops.append((len(body), h, t, body))
+    if not loops:
+        R.ob(rid, fn, "loop", False, "the clear() calls are not inside one loop")
+        return
+    _, H, TAIL, body = min(loops)
+
+    def is_self(t):
+        t = simp_deep(t)
+        while t[0] in ("field", "variant", "ref", "deref") and len(t) > 2:
+            t = simp_deep(t[2]) if t[0] == "field" or t[0] == "variant" else simp_deep(t[1])
+        return t[0] == "param" and t[1] == 1
+
+    def rooted_self(t):
+        ps = [x for x in walk(simp_deep(t)) if x[0] == "param"]
+        return bool(ps) and all(x[1] == 1 for x in ps) and not [x for x in walk(t) if x[0] == "phi"]
+
+    hs_keys = set(atoms_of(fm.edge_cond(H, [s2 for s2 in fn.succ(H) if s2 in body][0])))
+
+    def classify(k, t):
+        if k in hs_keys:
+            return "HS"
+        t = simp_deep(t) if isinstance(t, tuple) else t
+        if not isinstance(t, tuple):
+            return None
+        if t[0] == "call":
+            nm = F.strip_generics(t[1])
+            args = t[2]
+            if nm.endswith("PartialEq::eq") or nm.endswith("PartialEq::ne") or re.search(r"PartialEq.*::(eq|ne)$", nm):
+                neg = "!" if nm.endswith("ne") else ""
+                a, b = args[0], args[1]
+                for x, y in ((a, b), (b, a)):
+                    if term_has_field(x, "Item.right") and rooted_self(x) and not term_has_field(x, "Item.right_origin") and simp_deep(y)[0] == "agg":
+                        return neg + "R"
+                    if term_has_field(x, "Item.origin") and rooted_self(x) and term_has_field(y, "Item.origin") and not rooted_self(y):
+                        return neg + "SO"
+                    if term_has_field(x, "Item.right_origin") and rooted_self(x) and term_has_field(y, "Item.right_origin") and not rooted_self(y):
+                        return neg + "SRO"
+            if re.search(r"PartialOrd(<.*>)?::lt$", t[1]) or nm.endswith("PartialOrd::lt"):
+                a, b = args[0], args[1]
+                if field_path(simp_deep(a))[-2:] == ["id", "client"] and field_path(simp_deep(b))[-2:] == ["id", "client"] \
+                        and not rooted_self(a) and rooted_self(b):
+                    return "LT"
+            if nm.endswith("HashSet::contains"):
+                sid = set_of(args[0])
+                if sid == BEFORE:
+                    return "BO"
+                if sid == CONF:
+                    return "CO"
+        if k.endswith(" is Some") and term_has_call(t, "re:Option.*::and_then$") and term_has_field(t, "Item.origin"):
+            return "OS"
+        return None
+
+    def move(n):
+        return (not n["R"]) and ((n["SO"] and n["LT"]) or ((not n["SO"]) and n["OS"] and n["BO"] and not n["CO"]))
+
+    def cont(n):
+        return (not n["R"]) and ((n["SO"] and (n["LT"] or not n["SRO"])) or ((not n["SO"]) and n["OS"] and n["BO"]))
+
+    NAMES = ("HS", "R", "SO", "LT", "SRO", "OS", "BO", "CO")
+
+    def req(pred):
+        def r(named):
+            n = {x: named.get(x, False) for x in NAMES}
+            if not named.get("HS", True):
+                return None
+            # atoms the formula does not mention are don't-care only if the predicate does not depend on them
+            return bool(pred(n))
+        return r
+
+    def compare(site, blocks, pred, what, loc):
+        if not blocks:
+            R.ob(rid, fn, site, False, "no %s found in the scan loop" % what)
+            return
+        f = f_or(*[fm.reach_from(H, b) for b in blocks])
+        ats = atoms_of(f)
+        free = sorted(k for k in ats if classify(k, ats[k]) is None)
+        ok, cex, keys = truth_check(f, classify, req(pred), max_atoms=14)
+        # every named atom the predicate needs must occur, otherwise `named.get(x, False)` would hide a dropped test
+        have = {classify(k, ats[k]).lstrip("!") for k in ats if classify(k, ats[k])}
+        R.ob(rid, fn, site, ok and not free,
+             "%s: path formula over %s equals the YATA rule" % (what, sorted(have)) if ok and not free else
+             "%s deviates from the YATA rule: %s%s; formula = %s" %
+             (what, ("counterexample %s" % (cex,)) if not ok else "", (" unrecognised conditions %s" % [x[:80] for x in free]) if free else "",
+              fshow(f)[:400]), loc)
+
+    # effects: the local that is stored to self.left after the loop, and its definitions inside the loop
+    left_local = None
+    left_bbs = []
+    for (bi, bj, st) in fn.field_writes("Item.left"):
+        if bi in body or not isinstance(st["rv"].get("use"), dict):
+            continue
+        r = fn.copy_root(st["rv"]["use"])
+        if isinstance(r, int):
+            left_local = r
+    if left_local is not None:
+        for d in fn.defs().get(left_local, []):
+            if d[1] in body:
+                left_bbs.append(d[1])
+                t = simp_deep(v.terms.rvalue(d[3]["rv"], 8)) if d[0] == "stmt" else None
+                if not (t and t[0] == "agg" and t[1].endswith("Option::Some")):
+                    R.ob(rid, fn, "left-value", False, "`left` is assigned something else than Some(<scanned item>) in the scan: %s" % (sshow(t) if t else d[0]))
+    if left_local is None or not left_bbs:
+        R.ob(rid, fn, "left", False, "no local that is set to Some(o) in the scan and stored to self.left afterwards")
+        return
+    compare("move-left", left_bbs, move, "`left := Some(o)`", "%s:%s" % (fn.file, fn.line))
+    compare("clear-conflicting", [cs.bb for cs in clears], move, "`conflicting_items.clear()`", clears[0].loc())
+    compare("continue", [TAIL], cont, "continuing the scan with o.right", "%s:%s" % (fn.file, fn.line))
+    ins = [cs for cs in fn.calls() if F.strip_generics(cs.name).endswith("HashSet::insert") and cs.bb in body]
+    for sid, nm in ((BEFORE, "items_before_origin"), (CONF, "conflicting_items")):
+        bbs = [cs.bb for cs in ins if set_of(v.arg(cs, 0, 12)) == sid]
+        compare("insert:" + nm, bbs, lambda n: not n["R"], "`%s.insert(o)`" % nm, "%s:%s" % (fn.file, fn.line))
+
+
 def check(ctx, R):
     R.run("C01.a", rule_a, ctx)
     R.run("C01.b", rule_b, ctx)
     R.run("C01.c", rule_c, ctx)
     R.run("C01.d", rule_d, ctx)
     R.run("C01.e", rule_e, ctx)
+    R.run("C01.f", rule_f, ctx)
     return {}
